@@ -24,7 +24,7 @@ Not decided: unit norms, sorted weights, numerical invariance of full().
 from __future__ import annotations
 
 import ast
-from typing import Dict, List, Optional
+from typing import Dict, List, Optional, Tuple
 
 from ..model import Program, dotted, kwarg, const, AnalysisError
 from ..report import Result
@@ -196,6 +196,99 @@ def _never_exceeds(fn: ast.AST, bound: ast.expr, seq: ast.expr) -> Optional[bool
     return None
 
 
+# ---- upper bounds relative to the length of an array (decides whether `X[:e]` can be clipped by the end of X)
+def _len_key(fi, e: ast.AST, depth: int = 0) -> Optional[str]:
+    """Canonical text of len(e) for 1-D arrays built by the usual constructors; None when unknown."""
+    if depth > 6 or e is None:
+        return None
+    if isinstance(e, ast.Name):
+        d = _single_def(fi.node, e.id)
+        return _len_key(fi, d, depth + 1) if d is not None else None
+    if isinstance(e, ast.Call):
+        nm = (dotted(e.func) or "").split(".")[-1]
+        if nm in ("zeros", "ones", "empty") and e.args and not isinstance(e.args[0], (ast.Tuple, ast.List)):
+            return fi.rtext(e.args[0]).replace(" ", "")
+        if nm in ("argsort", "sort", "abs", "negative", "sign", "copy", "array", "asarray", "flip") and e.args:
+            return _len_key(fi, e.args[0], depth + 1)
+        if isinstance(e.func, ast.Attribute) and nm in ("argsort", "copy") and not e.args:
+            return _len_key(fi, e.func.value, depth + 1)
+        return None
+    if isinstance(e, ast.Compare) and len(e.ops) == 1:
+        return _len_key(fi, e.left, depth + 1) or _len_key(fi, e.comparators[0], depth + 1)
+    if isinstance(e, ast.UnaryOp):
+        return _len_key(fi, e.operand, depth + 1)
+    if isinstance(e, ast.Subscript) and not isinstance(e.slice, (ast.Slice, ast.Tuple, ast.Constant)):
+        return _len_key(fi, e.slice, depth + 1)          # A[P] has as many entries as the index array P
+    return None
+
+
+def _position_source(fi, e: ast.AST, depth: int = 0) -> Optional[ast.AST]:
+    """e is np.nonzero(B)[0] / np.where(B)[0] / np.flatnonzero(B) (possibly through names): returns B."""
+    if depth > 4 or e is None:
+        return None
+    if isinstance(e, ast.Name):
+        return _position_source(fi, _single_def(fi.node, e.id), depth + 1)
+    if isinstance(e, ast.Subscript) and const(e.slice) == 0 and isinstance(e.value, ast.Call) \
+            and (dotted(e.value.func) or "").split(".")[-1] in ("nonzero", "where") and len(e.value.args) == 1:
+        return e.value.args[0]
+    if isinstance(e, ast.Call) and (dotted(e.func) or "").split(".")[-1] == "flatnonzero" and e.args:
+        return e.args[0]
+    return None
+
+
+def _ubound(fi, e: ast.AST, benv: Dict[str, Tuple[str, int]], depth: int = 0) -> Optional[Tuple[str, int]]:
+    """(key, off): e <= key + off on the current path, key a length text."""
+    if depth > 6 or e is None:
+        return None
+    if isinstance(e, ast.Name):
+        return benv.get(e.id)
+    if isinstance(e, ast.BinOp) and isinstance(e.op, (ast.Add, ast.Sub)) and isinstance(const(e.right), int):
+        b = _ubound(fi, e.left, benv, depth + 1)
+        return None if b is None else (b[0], b[1] + (const(e.right) if isinstance(e.op, ast.Add) else -const(e.right)))
+    if isinstance(e, ast.Call) and (dotted(e.func) or "") == "int" and e.args:
+        return _ubound(fi, e.args[0], benv, depth + 1)
+    if isinstance(e, ast.Subscript) and not isinstance(e.slice, (ast.Slice, ast.Tuple)):
+        src = _position_source(fi, e.value)
+        if src is not None:
+            k = _len_key(fi, src)
+            if k is not None:
+                return (k, -1)               # a position inside an array of that length
+    return None
+
+
+def _bound_refine(fi, test: ast.AST, truth: bool, benv: Dict[str, Tuple[str, int]], depth: int = 0) -> None:
+    """Conjuncts `x < L - c` / `x <= L - c` that hold on this branch tighten the bound of x."""
+    if depth > 3:
+        return
+    if isinstance(test, ast.Name):
+        d = _single_def(fi.node, test.id)
+        if d is not None:
+            _bound_refine(fi, d, truth, benv, depth + 1)
+        return
+    if isinstance(test, ast.BoolOp) and isinstance(test.op, ast.And) and truth:
+        for v in test.values:
+            _bound_refine(fi, v, True, benv, depth + 1)
+        return
+    if isinstance(test, ast.UnaryOp) and isinstance(test.op, ast.Not):
+        _bound_refine(fi, test.operand, not truth, benv, depth + 1)
+        return
+    if isinstance(test, ast.Compare) and len(test.ops) == 1 and isinstance(test.left, ast.Name):
+        op, rhs = test.ops[0], test.comparators[0]
+        if (isinstance(op, (ast.Lt, ast.LtE)) and truth) or (isinstance(op, (ast.Gt, ast.GtE)) and not truth):
+            strict = isinstance(op, ast.Lt) or isinstance(op, ast.GtE)
+            off = 0
+            while isinstance(rhs, ast.BinOp) and isinstance(rhs.op, (ast.Add, ast.Sub)) and isinstance(const(rhs.right), int):
+                off += const(rhs.right) if isinstance(rhs.op, ast.Add) else -const(rhs.right)
+                rhs = rhs.left
+            key = fi.rtext(rhs).replace(" ", "")
+            if key.startswith("len(") and key.endswith(")"):
+                key = _len_key(fi, ast.parse(key[4:-1], mode="eval").body) or key
+            new = (key, off - (1 if strict else 0))
+            old = benv.get(test.left.id)
+            if old is None or (old[0] == new[0] and new[1] < old[1]):
+                benv[test.left.id] = new
+
+
 def _is_flip(st: ast.stmt) -> bool:
     if isinstance(st, ast.Assign) and isinstance(st.targets[0], ast.Subscript) and "factor_matrices" in ast.unparse(st.targets[0]):
         v = st.value
@@ -261,14 +354,21 @@ def parity(prog: Program, res: Result) -> None:
     verdicts: Dict[int, List] = {}
     for items, end in enumerate_paths(fi.node.body, limit=50000):
         env: Dict[str, Optional[str]] = {}
+        benv: Dict[str, Tuple[str, int]] = {}
         for kind, st in items:
             if kind in ("if-true", "if-false"):
                 m = _mod2_test(st.test)
                 if m is not None:
                     _refine(m[0], m[1] if kind == "if-true" else not m[1], env)
+                _bound_refine(fi, st.test, kind == "if-true", benv)
             elif kind == "stmt":
                 if isinstance(st, ast.Assign) and len(st.targets) == 1 and isinstance(st.targets[0], ast.Name):
                     env[st.targets[0].id] = _parity(st.value, env)
+                    b = _ubound(fi, st.value, benv)
+                    if b is not None:
+                        benv[st.targets[0].id] = b
+                    else:
+                        benv.pop(st.targets[0].id, None)
                 elif isinstance(st, ast.AugAssign) and isinstance(st.target, ast.Name):
                     env[st.target.id] = None
             elif kind == "loop-enter" and isinstance(st, ast.For):
@@ -282,6 +382,11 @@ def parity(prog: Program, res: Result) -> None:
                         # `for n in X[:e]` runs min(e, len(X)) times: even only when e is even AND cannot exceed len(X)
                         par = _parity(it.slice.upper, env)
                         clip = _never_exceeds(fi.node, it.slice.upper, it.value)
+                        if clip is None:
+                            # the bound is a position (plus a guarded offset) inside an array as long as the sliced one
+                            b, lk = _ubound(fi, it.slice.upper, benv), _len_key(fi, it.value)
+                            if b is not None and lk is not None and b[0] == lk and b[1] <= 0:
+                                clip = True
                         if par == "EVEN" and clip is True:
                             v = "EVEN"
                         elif clip is False:
@@ -345,9 +450,13 @@ def ps_k(prog: Program, res: Result) -> None:
     for name in ("arrange", "extract"):
         fi = kfunc(prog, name)
         wsel, fsel = [], []
+        felems = _factor_elements(fi.node)
         for n in ast.walk(fi.node):
             if isinstance(n, ast.Subscript) and isinstance(n.ctx, ast.Load):
                 vt = ast.unparse(n.value)
+                if isinstance(n.value, ast.Name) and n.value.id in felems and isinstance(n.slice, ast.Tuple) and len(n.slice.elts) == 2 \
+                        and isinstance(n.slice.elts[0], ast.Slice) and not isinstance(n.slice.elts[1], (ast.Slice, ast.Constant)):
+                    fsel.append((ast.unparse(n.slice.elts[1]), n))      # `for f in self.factor_matrices: f[:, sel]`
                 if vt.endswith(".weights") and not isinstance(n.slice, (ast.Slice, ast.Constant)):
                     wsel.append((ast.unparse(n.slice), n))
                 if "factor_matrices[" in vt and isinstance(n.slice, ast.Tuple) and len(n.slice.elts) == 2 and isinstance(n.slice.elts[0], ast.Slice) \
@@ -379,6 +488,8 @@ def ps_k(prog: Program, res: Result) -> None:
             for a in ast.walk(fi.node):
                 if isinstance(a, ast.Assign) and isinstance(a.targets[0], ast.Name) and a.targets[0].id == p.id:
                     pdef = ast.unparse(a.value).replace(" ", "")
+        elif p is not None:
+            pdef = fi.rtext(p).replace(" ", "")          # the permutation written in place
         if pdef in ("np.argsort(self.weights)[::-1]", "np.argsort(-self.weights)", "np.flip(np.argsort(self.weights))"):
             res.ok("PS-k", fi.short, desc, prog.loc(fi, calls[0]), pdef)
         else:
@@ -396,6 +507,11 @@ def ps_k(prog: Program, res: Result) -> None:
                     and "self.weights" in ast.unparse(a.value):
                 pnames[a.targets[0].id] = a
         if not pnames:
+            inplace = [c for c in ast.walk(fj.node) if isinstance(c, ast.Call) and any(
+                "argsort" in ast.unparse(a) and "self.weights" in ast.unparse(a) for a in list(c.args) + [k.value for k in c.keywords])
+                and (dotted(c.func) or "").split(".")[-1] != "argsort"]
+            if inplace:
+                res.ok("PS-k", fj.short, desc_s, prog.loc(fj, inplace[0]), "the permutation is computed in the call that applies it")
             continue
         stale = None
         checked = 0
@@ -459,10 +575,30 @@ def ps_k(prog: Program, res: Result) -> None:
             res.bad("PS-k", fi.short, desc, prog.loc(fi, wcat[0]), f"weights {wo}; factors {fo}; axis ok: {axis_ok}")
 
 
+def _factor_elements(fn: ast.FunctionDef) -> set:
+    """Names that range over every factor matrix: targets of `for f in self.factor_matrices` / `for i, f in enumerate(self.factor_matrices)`
+    (loops and comprehensions)."""
+    out = set()
+    for n in ast.walk(fn):
+        gens = []
+        if isinstance(n, ast.For):
+            gens.append((n.target, n.iter))
+        elif isinstance(n, (ast.ListComp, ast.GeneratorExp, ast.SetComp, ast.DictComp)):
+            gens += [(g.target, g.iter) for g in n.generators]
+        for tgt, it in gens:
+            if isinstance(it, ast.Call) and (dotted(it.func) or "") == "enumerate" and it.args and isinstance(tgt, ast.Tuple) and len(tgt.elts) == 2:
+                tgt, it = tgt.elts[1], it.args[0]
+            if isinstance(tgt, ast.Name) and ast.unparse(it).replace(" ", "") == "self.factor_matrices":
+                out.add(tgt.id)
+    return out
+
+
 def _in_all_modes_loop(fn: ast.FunctionDef, node: ast.AST) -> bool:
     for n in ast.walk(fn):
-        if isinstance(n, (ast.For, ast.ListComp)):
+        if isinstance(n, (ast.For, ast.ListComp, ast.GeneratorExp)):
             it = n.iter if isinstance(n, ast.For) else n.generators[0].iter
+            if isinstance(it, ast.Call) and (dotted(it.func) or "") == "enumerate" and it.args:
+                it = it.args[0]
             if any(x is node for x in ast.walk(n)) and ast.unparse(it).replace(" ", "") in ("range(self.ndims)", "range(0,self.ndims)", "self.factor_matrices"):
                 return True
     return False
@@ -474,10 +610,11 @@ def eo3(prog: Program, res: Result) -> None:
     up = prog.func(K + "update")
     # tovec: weights first iff include_weights; columns in order
     desc = "tovec puts the weights first iff include_weights and then every factor column by column"
-    cond = [n for n in ast.walk(tv.node) if isinstance(n, ast.If) and ast.unparse(n.test) == "include_weights"]
-    wfirst = bool(cond) and any("x[0:self.ncomponents]=self.weights" in ast.unparse(s).replace(" ", "") for s in cond[0].body)
-    colwise = any(isinstance(n, ast.For) and "f[:, r]" in ast.unparse(n) and "range(self.ncomponents)" in ast.unparse(n.iter) for n in ast.walk(tv.node))
-    outer = any(isinstance(n, ast.For) and ast.unparse(n.iter) == "self.factor_matrices" for n in ast.walk(tv.node))
+    tvn = tv.resolve(tv.node)        # extracted locals (ncomponents = self.ncomponents, nrows = f.shape[0]) read as their definitions
+    cond = [n for n in ast.walk(tvn) if isinstance(n, ast.If) and ast.unparse(n.test) == "include_weights"]
+    wfirst = any("[0:self.ncomponents]=self.weights" in ast.unparse(s).replace(" ", "") for c in cond for s in c.body)
+    colwise = any(isinstance(n, ast.For) and "f[:, r]" in ast.unparse(n) and "range(self.ncomponents)" in ast.unparse(n.iter) for n in ast.walk(tvn))
+    outer = any(isinstance(n, ast.For) and ast.unparse(n.iter) == "self.factor_matrices" for n in ast.walk(tvn))
     if wfirst and colwise and outer:
         res.ok("EO-3", tv.short, desc, prog.loc(tv))
     else:
